@@ -414,6 +414,11 @@ def check_property(prop, tier, configs=None, only=None, keep=False, write_eviden
             if rp['status'] == 'not-reproduced':
                 undecided.append((ob, 'counterexample did not replay on the real code (model/emitter defect?): ' + rp['path']))
                 continue
+            if rp['status'] != 'confirmed' and (any(dd.endswith('_UF') for dd in ob.defines) or getattr(ob.contract, 'gm', False) or getattr(ob.contract, 'modulo_lemma', None)):
+                # code-level (routing) contracts pin the SHAPE of the computation; without a real failing input a failure only
+                # says that the code no longer has that shape, which a correct rewrite would cause as well: undecided
+                undecided.append((ob, 'code-level contract failed and no failing input of the real code was obtained (the computation no longer has the stated shape): ' + rp['path']))
+                continue
             viol_lines.append('VIOLATION property=%s replay=%s%s' % (prop, rp['path'], '' if rp['status'] == 'confirmed' else ' no-failing-input-found'))
             print('  failed: %s  [%s]  %s' % (ob.ident(), ','.join(ob.cfgs), '; '.join((p.get('desc') or '')[:100] for p in failed_props(ob)[:3])))
         seen_k = set()
